@@ -34,7 +34,9 @@ fn types(r: &mut SplitMix64) -> (ColumnType, &'static str) {
         19 => (ColumnType::TimestampWithTimeZone, "text"), 20 => (ColumnType::Time, "text"), 21 => (ColumnType::Date, "text"), 22 => (ColumnType::Binary(n), "blob"),
         23 => (ColumnType::VarBinary(if r.chance(1, 2) { StringLen::N(n) } else { StringLen::None }), "blob"), 24 => (ColumnType::Blob, "blob"), 25 => (ColumnType::Boolean, "numeric"),
         26 => (ColumnType::Money(if r.chance(1, 2) { Some((1 + r.below(38) as u32, r.below(4) as u32)) } else { None }), "real"), 27 => (if r.chance(1, 2) { ColumnType::Json } else { ColumnType::JsonBinary }, "text"),
-        28 => (ColumnType::Uuid, "text"), _ => (ColumnType::Enum { name: a("e").into_iden(), variants: vec![a("x").into_iden(), a("y").into_iden()] }, "text"),
+        28 => (ColumnType::Uuid, "text"), // an enumeration is TEXT whatever it is called: names that contain the words SQLite derives an affinity from
+        _ => (ColumnType::Enum { name: a(*r.pick(&["e", "mood", "point", "print_kind", "real_kind", "blob_kind", "character", "floating", "doubt", "clobber"])).into_iden(),
+            variants: vec![a("x").into_iden(), a(*r.pick(&["y", "int", "it's"])).into_iden()] }, "text"),
     }
 }
 fn is_rowid_type(t: &ColumnType, autoinc: bool) -> bool { matches!(t, ColumnType::Integer | ColumnType::Unsigned) || (autoinc && matches!(t, ColumnType::BigInteger | ColumnType::BigUnsigned)) }
